@@ -11,6 +11,7 @@ C09 — ordered results are globally sorted; limit/offset is a window of them. L
   /repo/pkg/query/logical/measure/measure_plan.go              (limitIterator)
   /repo/pkg/query/logical/measure/measure_plan_distributed.go  (sortedMIterator.loadOneGroup, hashDataPoint)
   /repo/pkg/query/logical/measure/measure_top.go               (TopQueue.Insert / Elements)
+  /repo/banyand/measure/query.go                               (queryResult.Less/Pull/merge), part.go (mustInitFromDataPoints)
 
 `container/heap` is trusted: `heap.Pop` removes *some* `Less`-minimal element. The relation `Merge`
 allows every such choice; the executable `kmerge` takes the first minimal one.
@@ -369,5 +370,88 @@ def topRun (n : Nat) (reverted : Bool) : List Int → List Bool × List Int → 
     match topInsert n reverted st.2 x with
     | none => none
     | some (a, h) => topRun n reverted xs (st.1 ++ [a], h)
+
+/-! ### 6. measure `queryResult` (banyand/measure/query.go): heap of block cursors, one series per `Pull` -/
+
+structure MRow where
+  sid : Nat
+  ts : Int
+  ver : Int
+  val : Int
+deriving DecidableEq, Repr, Inhabited
+
+/-- `dataPoints.Less`: (seriesID, timestamp, version descending) -/
+def mrowLe (a b : MRow) : Bool :=
+  decide (a.sid < b.sid) || (a.sid == b.sid && (decide (a.ts < b.ts) || (a.ts == b.ts && decide (a.ver ≥ b.ver))))
+
+/-- `mustInitFromDataPoints`: inside a part only the first (newest) row of a (series, timestamp) survives -/
+def dropDupTs : List MRow → List MRow
+  | a :: b :: r => if a.sid = b.sid ∧ a.ts = b.ts then dropDupTs (a :: r) else a :: dropDupTs (b :: r)
+  | l => l
+termination_by l => l.length
+
+/-- one block per series of the part (at most `maxBlockLength` rows per series in the modelled input space) -/
+def groupBySid : List MRow → List MRow → List (List MRow)
+  | [], cur => if cur.isEmpty then [] else [cur.reverse]
+  | e :: rest, [] => groupBySid rest [e]
+  | e :: rest, c :: cur => if c.sid ≠ e.sid then (c :: cur).reverse :: groupBySid rest [e] else groupBySid rest (e :: c :: cur)
+
+def measureBlocks (rows : List MRow) : List (List MRow) := groupBySid (dropDupTs (rows.mergeSort mrowLe)) []
+
+/-- `queryResult.Less` on the current rows of two cursors -/
+def qrLt (byTS asc : Bool) (sids : List Nat) (a b : MRow) : Bool :=
+  if byTS then
+    if a.ts == b.ts then
+      if a.sid == b.sid then decide (a.ver > b.ver) else decide (a.sid < b.sid)
+    else if asc then decide (a.ts < b.ts) else decide (a.ts > b.ts)
+  else
+    let ia := sids.idxOf a.sid
+    let ib := sids.idxOf b.sid
+    if ia == ib then
+      if a.ts == b.ts then decide (a.ver > b.ver) else decide (a.ts < b.ts)
+    else decide (ia < ib)
+
+/-- `queryResult.merge`: rows of one series until the top of the heap belongs to another series; a row
+    with the timestamp of the last copied one only replaces it when its version is greater than `lastVersion`
+    (which is the version of the last *copied* row). Returns the result and the remaining heap. -/
+def qrMerge (lt : MRow → MRow → Bool) : Nat → List (Cursor MRow) → List MRow → Option Nat → Int →
+    List MRow × List (Cursor MRow)
+  | 0, h, res, _, _ => (res.reverse, h)
+  | f + 1, h, res, lastSid, lastVer =>
+    match pickMin lt h with
+    | none => (res.reverse, [])
+    | some (m, o) =>
+      let top := m.1
+      if lastSid.isSome ∧ lastSid ≠ some top.sid then (res.reverse, h)
+      else
+        let h' := pushIter m.2 o
+        match res with
+        | last :: before =>
+          if top.ts = last.ts then
+            if top.ver > lastVer then qrMerge lt f h' ({ last with ver := top.ver, val := top.val } :: before) (some top.sid) lastVer
+            else qrMerge lt f h' res (some top.sid) lastVer
+          else qrMerge lt f h' (top :: res) (some top.sid) top.ver
+        | [] => qrMerge lt f h' [top] (some top.sid) top.ver
+
+/-- `Pull` until nil: a single remaining cursor is copied wholesale (`copyAllTo`). -/
+def qrPullAll (lt : MRow → MRow → Bool) : Nat → List (Cursor MRow) → List (List MRow)
+  | 0, _ => []
+  | f + 1, h =>
+    match h with
+    | [] => []
+    | [c] => [c.all]
+    | _ =>
+      let (res, h') := qrMerge lt (heapSize h + 1) h [] none 0
+      res :: qrPullAll lt f h'
+
+/-- the real query path: parts → blocks → cursors restricted to the time range → `queryResult` -/
+def measureQuery (parts : List (List MRow)) (sids : List Nat) (minTS maxTS : Int) (byTS asc : Bool) : List (List MRow) :=
+  let blocks := (parts.flatMap measureBlocks).filter fun b => b.head?.any fun e => sids.contains e.sid
+  let curs := blocks.map fun b =>
+    let rows := b.filter fun e => decide (minTS ≤ e.ts) && decide (e.ts ≤ maxTS)
+    if byTS && !asc then rows.reverse else rows
+  let h := initHeap curs
+  qrPullAll (qrLt byTS asc sids) (heapSize h + 1) h
+
 
 end Banyan.C09
